@@ -18,7 +18,8 @@ def pick(rng, seq):
 def gen_fd(rng, fd, files):
     """Return (descriptor dict); may add backing files to `files`."""
     kind = pick(rng, ["file", "file", "file", "deleted", "dir", "chr",
-                      "socket", "pipe", "anon", "rel", "unstatable"])
+                      "socket", "pipe", "anon", "rel", "unstatable",
+                      "badlink"])
     acc = pick(rng, [0, 0, 1, 2, 2, 1])
     flags = acc
     for bit in (0o2000, 0o100, 0o1000, 0o2000000, 0o4000, 0o100000):
@@ -72,6 +73,10 @@ def gen_fd(rng, fd, files):
         d["target"] = path + pick(rng, ["", " (deleted)"])
         if d["target"].endswith(" (deleted)"):
             files[d["target"]] = dict(files[path])
+    elif kind == "badlink":
+        d["kind"] = "raw"
+        d["target"] = "/tmp/unresolvable%d" % fd
+        d["readlink_err"] = pick(rng, [36, 22])
     elif kind == "dir":
         d["target"] = "/tmp"
         files.setdefault("/tmp/.keep", {"t": "f", "data": ""})
